@@ -381,9 +381,10 @@ func checkRT(prop, tier string) int {
 	if e1 != nil || e2 != nil {
 		die2("determinism canary failed to run: %v %v", e1, e2)
 	}
+	canaryDiverged := false
 	for i := range c1 {
 		if c1[i].LogHash != c2[i].LogHash {
-			die2("determinism canary: same seeds gave different event logs (GOMAXPROCS 1 vs 4)")
+			canaryDiverged = true
 		}
 	}
 	// merge
@@ -468,6 +469,9 @@ func checkRT(prop, tier string) int {
 				fmt.Printf("  | %s\n", clip(l, 400))
 			}
 		}
+	}
+	if canaryDiverged && unknown == 0 {
+		die2("determinism canary: same seeds gave different event logs (GOMAXPROCS 1 vs 4) and no violation was found")
 	}
 	wall := time.Since(t0).Seconds()
 	faults := map[string]int{}
